@@ -1247,3 +1247,18 @@ Example fork_child_example :
     (true, 1%nat, 2, 3, 0); (false, 1%nat, 2, 0, 10); (false, 1%nat, 1, 0, 30);
     (false, 0%nat, 2, 0, 100); (false, 0%nat, 1, 0, 300); (false, 0%nat, 0, 0, 500) ].
 Proof. vm_compute. reflexivity. Qed.
+
+(* regression (fix ea8f61a): task 1 is selected without its parent 0 and starts with the ENTRY of
+   vfork(); its own child 2 continues at the depth that vfork() line is displayed at *)
+Definition orphan_fork_tasks : list task :=
+  [ mktask None [mkrec 1000 ENTRY 0 1; mkrec 1010 ENTRY 1 2; mkrec 1020 ENTRY 2 4; mkrec 1030 EXIT 2 4;
+                 mkrec 1090 EXIT 1 2; mkrec 1100 EXIT 0 1];
+    mktask (Some 0%nat) [mkrec 1025 ENTRY 3 5; mkrec 1040 EXIT 3 5; mkrec 1050 EXIT 2 4; mkrec 1060 EXIT 1 2];
+    mktask (Some 1%nat) [mkrec 1035 EXIT 3 5; mkrec 1045 ENTRY 3 3; mkrec 1046 EXIT 3 3; mkrec 1055 EXIT 2 4] ].
+Example orphan_fork_child_continues :
+  map core_of (events_of (fst (replay_raw (mkcfg false [4; 5]) (Some [1%nat; 2%nat]) orphan_fork_tasks))) =
+  [ (true, 1%nat, 3, 5, 0);                      (* vfork() { at the inherited stack depth 3 *)
+    (false, 2%nat, 3, 0, 0);                     (* the grandchild leaves vfork() at depth 3 *)
+    (false, 1%nat, 3, 0, 15); (true, 2%nat, 3, 3, 0); (false, 2%nat, 3, 0, 1);
+    (false, 1%nat, 2, 0, 25); (false, 2%nat, 2, 0, 20); (false, 1%nat, 1, 0, 35) ].
+Proof. vm_compute. reflexivity. Qed.
